@@ -461,7 +461,7 @@ pub fn explore(ctx: &mut Ctx, mk: Mk, n_declared: usize) {
             }
         }
     }
-    if ctx.want_sample() {
+    if ctx.want_sample() && n_en >= 2 && spec.variants.iter().any(|v| v.disabled) {
         ctx.sample(json!({"program": ctx.program.label, "enum": render_enum(&spec, &["strum::EnumTable"]), "bfs_unique_states": states, "transitions": c.transitions, "max_depth": depth,
             "example_history": show(0, &[(0, 2), (n_declared - 1, 0)], &idents)}));
     }
